@@ -101,7 +101,7 @@ def run(ctx, only=None):
             case = SC.gen_case(rng, n_events=rng.choice([1, 2]) if ctx.tier == "quick" else rng.choice([2, 3, 4, 5]))
             case.update(k0=-1, handler="running", max_attempts=1, prestored=rng.randrange(0, len(case["events"]) + 1))
             # at least one payload with multi-byte characters and a Unicode line separator
-            j = rng.randrange(len(case["events"]))
+            j = len(case["events"]) - 1          # the terminal event is never filtered
             case["events"][j] = (case["events"][j][0], rng.choice(["é p", "\U0001f600\u2029", "ü\x85ü"]),
                                  case["events"][j][2])
             ln, base = SC.full_body_length(case)
